@@ -156,7 +156,7 @@ func genCtorRouterInfo(g *G, rich bool) {
 			g.emit("!ctorRouterInfo", "7", "4", g.seed(), itoa(pub), itoa(na), "-", "ok")
 		}
 	}
-	n := g.n(20, 400)
+	n := g.n(60, 400)
 	if !rich {
 		n = g.n(5, 50)
 	}
@@ -196,7 +196,7 @@ func genCtorLeaseSet(g *G, rich bool) {
 			g.emit("!ctorLeaseSet", itoa(id.sig), id.kind, g.seed(), itoa(n), "ok")
 		}
 	}
-	for i := 0; i < g.n(10, 300); i++ {
+	for i := 0; i < g.n(30, 300); i++ {
 		id := ids[g.R.intn(4)]
 		g.emit("!ctorLeaseSet", itoa(id.sig), id.kind, g.seed(), itoa(g.R.rng(0, 16)), "ok")
 	}
@@ -283,7 +283,7 @@ func genCtorELS(g *G, rich bool) {
 	forms := []string{"std", "ptr", "arr", "bytes"}
 	i := 0
 	for _, st := range []int{7, 11} {
-		for _, off := range []string{"-", "7", "11"} {
+		for _, off := range []string{"-", "7", "11", "2", "0"} { // incl. transient types with 96- and 40-byte signatures
 			for _, fl := range []int{0, 2} {
 				if off != "-" {
 					fl |= 1
@@ -341,7 +341,7 @@ func genCtorOffline(g *G, rich bool) {
 		}
 	}
 	if rich {
-		for i := 0; i < g.n(30, 400); i++ {
+		for i := 0; i < g.n(90, 400); i++ {
 			g.emit("!ctorOfflineSig", itoa(r.pick(7, 11)), itoa(r.pick(7, 11, 1, 2, 8)), g.seed(), itoa(int(uint32(r.next())|1)), "ok")
 		}
 	}
